@@ -191,6 +191,19 @@ CLAIMS = {
         technique="bit-level XOR-set provenance, must-fact dataflow for call-result facts, table agreement against RFC 1321 "
                   "recomputed in the checker",
         design="5 C19"),
+    "C20": dict(
+        text="Clause-level structural decision: forward_query records id, source address and address length of the query before "
+             "any write to that address (including through the cast alias), encodes the same query into a buffer at least as "
+             "large as the largest query message dns_encode can build (derived from the C10 token walk) and sends exactly the "
+             "encoder's buffer and length; tunnel_bind sends a reply to the address stored in the entry looked up by the reply's "
+             "id, only under entry != NULL, on the socket chosen for that address, with the received bytes and length unchanged; "
+             "every path through fw_query_put stores one whole entry at the ring cursor and advances it by exactly one with "
+             "wrap-around inside the array (0 <= cursor < size proven inductively over all writers); fw_query_get starts from "
+             "NULL, scans every slot and reports a slot only on id equality; forwarding happens only with a configured port. Not "
+             "decided: which entry wins among equal ids beyond the window of 16.",
+        technique="must-fact dataflow, symbolic path enumeration of the ring writer, inductive field invariant, token-walk "
+                  "derived message bound",
+        design="5 C20"),
 }
 
 NA = {
